@@ -234,6 +234,76 @@ pub fn run(ctx: &Ctx) -> Report {
     }
     total.merge(st);
 
+    // every single-character edit of every documented element (replace by a neighbouring spelling
+    // character, delete, duplicate, swap): an almost-directive is what the reference scanner says
+    // it is, never the directive it resembles
+    let edits = run_shards(16, |shard| {
+        let mut st = Stats::new();
+        let alphabet: Vec<char> = "_-. :{}%\\aAzZ09".chars().collect();
+        for (n, e) in els.iter().enumerate() {
+            if n % 16 != shard {
+                continue;
+            }
+            let cs: Vec<char> = e.chars().collect();
+            let mut variants: Vec<String> = vec![];
+            for i in 0..cs.len() {
+                for a in &alphabet {
+                    if *a != cs[i] {
+                        let mut v = cs.clone();
+                        v[i] = *a;
+                        variants.push(v.iter().collect());
+                    }
+                }
+                let mut v = cs.clone();
+                v.remove(i);
+                variants.push(v.iter().collect());
+                let mut v = cs.clone();
+                v.insert(i, cs[i]);
+                variants.push(v.iter().collect());
+                if i + 1 < cs.len() {
+                    let mut v = cs.clone();
+                    v.swap(i, i + 1);
+                    variants.push(v.iter().collect());
+                }
+                // case flip
+                let mut v = cs.clone();
+                v[i] = if cs[i].is_ascii_lowercase() { cs[i].to_ascii_uppercase() } else { cs[i].to_ascii_lowercase() };
+                if v != cs {
+                    variants.push(v.iter().collect());
+                }
+            }
+            for s in variants {
+                for t in [s.clone(), format!("x{s}y")] {
+                    let v = judge(&t);
+                    st.record(&v, stable_hash(&(&t, "edit")), true, || case_json(&t));
+                }
+            }
+        }
+        st
+    });
+    total.merge(edits);
+    // literal runs whose byte length sits at a power of two (length fields narrowed to 8 or 16 bits),
+    // before a directive, before an escape, between two elements and at the end
+    let mut stl = Stats::new();
+    for unit in ["a", "é", "日"] {
+        for bytes in [255usize, 256, 257, 65535, 65536, 65537, 131072] {
+            let n = bytes / unit.len();
+            if n * unit.len() != bytes && unit != "a" {
+                // keep the byte length exact: pad with one-byte characters
+            }
+            let mut run = unit.repeat(n);
+            while run.len() < bytes {
+                run.push('b');
+            }
+            for s in [format!("{run}%p"), format!("{run}\\n"), format!("%p{run}%s"), format!("%p{run}"), format!("{run}%%{run}\\t")] {
+                let v = judge_quoted(&s);
+                stl.record(&v, stable_hash(&s), true, || case_json(&s));
+            }
+        }
+    }
+    stl.samples.clear();
+    total.merge(stl);
+
     let cases = ctx.tier.pick(400_000u32, 4_000_000u32);
     let shards = 16;
     let rnd = run_shards(shards, |shard| {
